@@ -438,3 +438,28 @@ func verif_TCPMuxGroup_worker(tmg *TCPMuxGroup) {
 		verif.Ensures(verif.CalledWith("net.Conn).Close", 0, verif.Ret[net.Conn]("Listener).Accept", 0)), "failed_handoff_closes_connection")
 	}
 }
+
+// A member's Accept waits for a user connection and for the member's own
+// listener being closed in one select (C13 "live members only": a member that
+// has left - its listener closed while it was waiting - stops taking
+// connections away from the live members; a bare receive on the group's
+// channel would keep taking them).
+//
+//verif:noblock (*~/server/group.TCPGroupListener).Accept props=C13,C16 recv
+//verif:noblock (*~/server/group.TCPMuxGroupListener).Accept props=C13,C16 recv
+
+// ... and when the close signal is what woke it up, it reports that it is
+// closed and hands out no connection.
+//
+//verif:contract (*~/server/group.TCPGroupListener).Accept
+//verif:props C13
+//verif:kinds post
+func verif_TCPGroupListener_Accept(ln *TCPGroupListener) {
+	verif.ResetEvents()
+	c, err := ln.Accept()
+	if verif.Called("recv:H.server.group.TCPGroupListener.closeCh") {
+		verif.Ensures(c == nil && err != nil, "closed_member_gets_no_connection")
+	} else {
+		verif.Ensures((err == nil) == verif.RetBool("recv", 0), "connection_iff_the_group_delivered_one")
+	}
+}
